@@ -392,7 +392,17 @@ fn run_e2e(
                     return json!({"outcome": "Ok", "undecodable": e});
                 }
             };
-            check_wellformed(rep, pp, c, &d, ctx);
+            let mut attached: Vec<u8> = txspec
+                .directives
+                .iter()
+                .filter_map(|x| match x {
+                    Directive::PlutusWitness { version, .. } if (1..=3).contains(version) => Some(*version - 1),
+                    _ => None,
+                })
+                .collect();
+            attached.sort();
+            attached.dedup();
+            check_wellformed(rep, pp, c, &d, &attached, ctx);
             if !byz {
                 if let Some(last) = res.rounds.iter().rev().find(|r| r.out.is_ok()) {
                     check_body_inputs(rep, &bindings_of(&last.tir), &d, ctx);
@@ -554,7 +564,7 @@ fn run_direct(
         };
         let (moved, faults_fired, served, fetch_reqs) = {
             let g = w.lock().unwrap();
-            (g.ledger_moved, g.res_faults, g.served.clone(), g.fetch_reqs.clone())
+            (g.ledger_moved, g.res_view_faults, g.served.clone(), g.fetch_reqs.clone())
         };
         let byz = w.lock().unwrap().cfg.byz_permille > 0;
         let actx = format!("{ctx} (inputs::resolve, attempt {attempt})");
